@@ -1244,3 +1244,238 @@ def horz_open_end_rule(db, chk, cfg, rule="HORZ.open-end"):
                               "only be skipped for a closed-path maximum heading for its maxima pair" %
                               ("active" if got else "skipped", "is" if at_max else "is not", "is" if open_end else "is not"), where(node), cfg=cfg)
     return n
+
+
+# ---------------------------------------------------------------------------
+# RectClip / RectClipLines: where is a point relative to the rectangle? (C08, C09)
+# ---------------------------------------------------------------------------
+
+def location_table(db, chk, cfg, rule="T.location"):
+    """GetLocation(rec, pt, loc) on every weak ordering of pt.x against left < right and pt.y against top < bottom (25 cells):
+    strictly inside -> true/Inside; on the boundary -> false and loc names an edge the point lies on; outside -> true and loc names
+    a side the point lies beyond.  Both clippers add a vertex as 'inside' on the strength of this answer."""
+    f = db.one("GetLocation")
+    names = [p.get("name") for p in f.params]
+    if len(names) != 3:
+        raise AnalysisBroken("GetLocation: expected (rec, pt, loc)")
+    rec, pt, loc = names
+    loc_enum = None
+    for en, vals in db.enums.items():
+        if set(("Left", "Top", "Right", "Bottom", "Inside")) <= set(vals):
+            loc_enum = (en, vals)
+    if loc_enum is None:
+        raise AnalysisBroken("enum Location {Left, Top, Right, Bottom, Inside} not found")
+    L, R, T, B = 2, 4, 2, 4
+    n = 0
+    for x in (1, 2, 3, 4, 5):
+        for y in (1, 2, 3, 4, 5):
+            log = []
+            env = {rec + ".left": SymVal(L, "left", log, group="order-x"), rec + ".right": SymVal(R, "right", log, group="order-x"),
+                   rec + ".top": SymVal(T, "top", log, group="order-y"), rec + ".bottom": SymVal(B, "bottom", log, group="order-y"),
+                   pt + ".x": SymVal(x, "pt.x", log, group="order-x"), pt + ".y": SymVal(y, "pt.y", log, group="order-y"),
+                   loc: None}
+            it = Interp(db, env, log)
+            try:
+                ret = bool(it.run_function(f))
+            except Unsupported as e:
+                raise AnalysisBroken("cannot interpret GetLocation: %s" % e)
+            check_uniform(log, {})
+            got = it.env.get(loc)
+            got_name = None
+            for nm in loc_enum[1]:
+                if got is not None and _raw_int(got) == _raw_int(it.enum_value(None, nm) if False else _enum_val(db, loc_enum[0], nm)):
+                    got_name = nm
+            inside_x = L < x < R
+            inside_y = T < y < B
+            in_closed = L <= x <= R and T <= y <= B
+            if inside_x and inside_y:
+                ok = ret and got_name == "Inside"
+                want = "true / Inside"
+            elif in_closed:
+                on = set()
+                if x == L:
+                    on.add("Left")
+                if x == R:
+                    on.add("Right")
+                if y == T:
+                    on.add("Top")
+                if y == B:
+                    on.add("Bottom")
+                ok = (not ret) and got_name in on
+                want = "false / one of %s" % sorted(on)
+            else:
+                beyond = set()
+                if x < L:
+                    beyond.add("Left")
+                if x > R:
+                    beyond.add("Right")
+                if y < T:
+                    beyond.add("Top")
+                if y > B:
+                    beyond.add("Bottom")
+                ok = ret and got_name in beyond
+                want = "true / one of %s" % sorted(beyond)
+            n += 1
+            chk.instance(rule, {"pt.x": ["<left", "=left", "between", "=right", ">right"][x - 1], "pt.y": ["<top", "=top", "between", "=bottom", ">bottom"][y - 1],
+                                "returns": ret, "loc": got_name, "cfg": cfg}, ok=ok)
+            if not ok:
+                chk.violation(rule, f.qual, "x%d/y%d" % (x, y), "GetLocation returns %s / %s for a point with x %s and y %s; the definition gives %s" %
+                              (ret, got_name, ["< left", "== left", "between left and right", "== right", "> right"][x - 1],
+                               ["< top", "== top", "between top and bottom", "== bottom", "> bottom"][y - 1], want), f.where, cfg=cfg)
+    return n
+
+
+def _raw_int(v):
+    return v.v if isinstance(v, SymVal) else v
+
+
+def _argtext(a):
+    """canon() of an argument with a by-value copy construction removed."""
+    a = strip(a)
+    while a.get("kind") in ("CXXConstructExpr", "CXXTemporaryObjectExpr") and len(kids(a)) == 1:
+        a = strip(kids(a)[0])
+    return canon(a)
+
+
+def _enum_val(db, enum_name, member):
+    vals = db.enums[enum_name]
+    return vals.index(member) if not isinstance(vals, dict) else vals[member]
+
+
+def lines_dispatch(db, chk, cfg, rule="T.lines-dispatch"):
+    """RectClipLines64::ExecuteInternal at a boundary crossing: a new piece starts exactly when the polyline enters the rectangle
+    (the vertex before was not inside); entering adds the crossing as the first vertex of a new piece, leaving adds the crossing to
+    the current piece, passing right through adds the first crossing as a new piece and the second crossing after it."""
+    from ..astq import if_parts
+    f = db.one("RectClipLines64::ExecuteInternal")
+    site = None
+    for x in walk(f.body):
+        if x.get("kind") == "IfStmt":
+            cond, then, els = if_parts(x)
+            if els is not None and "Inside" in canon(cond) and any(
+                    y.get("kind") == "CXXMemberCallExpr" and db.callee(y)[0] == "Add" for y in walk(then)) and any(
+                    y.get("kind") == "CXXMemberCallExpr" and db.callee(y)[0] == "Add" for y in walk(els)) and any(
+                    y.get("kind") in ("CallExpr",) and db.callee(y)[0] == "GetIntersection" for y in walk(els)):
+                site = x
+                break
+    if site is None:
+        raise AnalysisBroken("crossing dispatch (`if (loc == Location::Inside) ... else if (prev != Location::Inside) ... else ...`) not found in RectClipLines64::ExecuteInternal")
+    loc_enum = None
+    for en, vals in db.enums.items():
+        if set(("Left", "Top", "Right", "Bottom", "Inside")) <= set(vals):
+            loc_enum = (en, vals)
+    if loc_enum is None:
+        raise AnalysisBroken("enum Location not found")
+    # the crossing computed before the dispatch: which end of the segment is it closest to?
+    main = None
+    for x in walk(f.body):
+        if x.get("kind") == "CallExpr" and db.callee(x)[0] == "GetIntersection" and not any(x is y for y in walk(site)):
+            main = x
+    if main is None:
+        raise AnalysisBroken("the GetIntersection call before the crossing dispatch was not found")
+    margs = [_argtext(a) for a in db.call_args(main)]
+    n = 0
+    vals = list(loc_enum[1])
+    for prev in vals:
+        for loc in vals:
+            if prev == "Inside" and loc == "Inside":
+                continue              # no crossing between two inside vertices
+            if prev == loc and loc != "Inside":
+                pass                  # both outside on the same side can still cross (corner regions) - the dispatch must cope
+            calls = []
+
+            def hook(name, argv, nd):
+                if name == "Add":
+                    a = [_argtext(z) for z in db.call_args(nd)]
+                    new = False
+                    if len(a) >= 2 and a[1] != "<default>":
+                        new = argv[1] if argv is not None and len(argv) > 1 else a[1] == "true"
+                    calls.append(("Add", a[0], bool(new)))
+                    return None
+                if name == "GetIntersection":
+                    a = [_argtext(z) for z in db.call_args(nd)]
+                    calls.append(("GetIntersection", a[1], a[2], a[4]))
+                    return True
+                return NotImplemented
+            env = {"prev": _enum_val(db, loc_enum[0], prev), "loc": _enum_val(db, loc_enum[0], loc), "crossing_loc": 0,
+                   "ip": "ip", "ip2": "ip2", "prev_pt": "prev_pt"}
+            it = Interp(db, env, [], call_hook=hook)
+            try:
+                it.exec(site)
+            except Unsupported as e:
+                raise AnalysisBroken("cannot interpret the crossing dispatch of RectClipLines64::ExecuteInternal: %s" % e)
+            adds = [c for c in calls if c[0] == "Add"]
+            gis = [c for c in calls if c[0] == "GetIntersection"]
+            ip = margs[4]
+            if loc == "Inside":
+                want = [("Add", ip, True)]
+                ok = adds == want and not gis
+            elif prev != "Inside":
+                ok = len(gis) == 1 and len(adds) == 2 and adds[0] == ("Add", gis[0][3], True) and adds[1] == ("Add", ip, False) and \
+                    gis[0][1] == margs[2] and gis[0][2] == margs[1] and gis[0][3] != ip
+                want = [("GetIntersection from the other end", margs[2], margs[1]), ("Add", "<first crossing>", True), ("Add", ip, False)]
+            else:
+                want = [("Add", ip, False)]
+                ok = adds == want and not gis
+            n += 1
+            chk.instance(rule, {"prev": prev, "loc": loc, "calls": [list(c) for c in calls], "cfg": cfg}, ok=ok)
+            if not ok:
+                chk.violation(rule, f.qual, "%s->%s" % (prev, loc), "at a boundary crossing with the previous vertex %s and the current vertex %s the code does %s; "
+                              "a piece must start exactly where the polyline enters the rectangle: expected %s" % (prev, loc, calls, want), where(site), cfg=cfg)
+    return n
+
+
+def lines_shortcuts(db, chk, cfg, rule="T.rect"):
+    """How RectClipLines64::Execute uses the bounding-box predicates and in which order it emits the pieces."""
+    from ..astq import if_parts
+    f = db.one("RectClipLines64::Execute")
+    loops = [x for x in kids(f.body) if x.get("kind") == "CXXForRangeStmt"]
+    if len(loops) != 1:
+        raise AnalysisBroken("path loop of RectClipLines64::Execute not found")
+    lp = loops[0]
+    lv = [d for d in walk(kids(lp)[-2]) if d.get("kind") == "VarDecl"][0].get("name")
+    body = kids(lp)[-1]
+    problems = []
+    pre = [s for s in kids(f.body) if s is not lp]
+    if not any(s.get("kind") == "IfStmt" and "IsEmpty()" in canon(if_parts(s)[0]) and "return" in canon(if_parts(s)[1]) for s in pre):
+        problems.append("no `if (rect_.IsEmpty()) return result;` before the path loop")
+    outside = None
+    bounds_var = None
+    seen_exec = False
+    inner = None
+    for s in kids(body):
+        cs = canon(s)
+        if s.get("kind") == "DeclStmt" and "GetBounds(%s)" % lv in cs:
+            bounds_var = [d for d in kids(s) if d.get("kind") == "VarDecl"][0].get("name")
+        if s.get("kind") == "IfStmt" and not seen_exec:
+            cond, then, els = if_parts(s)
+            cc = canon(cond)
+            if "Intersects(" in cc:
+                outside = (cc, canon(then))
+        if any(x.get("kind") == "CXXMemberCallExpr" and db.callee(x)[0] == "ExecuteInternal" for x in walk(s)):
+            seen_exec = True
+            if "ExecuteInternal(%s)" % lv not in cs:
+                problems.append("ExecuteInternal is not called with the current path")
+        if s.get("kind") in ("CXXForRangeStmt", "ForStmt") and seen_exec:
+            inner = s
+    if bounds_var is None:
+        problems.append("the bounds tested are not GetBounds(<the current path>)")
+    if outside is None:
+        problems.append("no `if (!rect_.Intersects(bounds)) continue;` before ExecuteInternal")
+    else:
+        if not outside[0].startswith("(!") or (bounds_var and "Intersects(%s)" % bounds_var not in outside[0]) or "continue" not in outside[1] or "emplace_back" in outside[1]:
+            problems.append("the 'entirely outside' shortcut is not `if (!rect_.Intersects(<bounds of the path>)) continue;`: %s %s" % outside)
+    if inner is None:
+        problems.append("no loop over results_ after ExecuteInternal")
+    else:
+        ci = canon(inner)
+        over_results = any(y.get("kind") == "MemberExpr" and y.get("name") == "results_" for y in walk(inner))
+        if not over_results or "GetPath(" not in ci or not ("result.emplace_back" in ci or "result.push_back" in ci):
+            problems.append("the pieces of a path are not appended to the result in the order of results_")
+        if inner.get("kind") == "ForStmt":
+            problems.append("the loop over results_ is not a forward range-for (order of pieces)")
+    chk.instance(rule, {"function": f.qual, "shortcuts": "empty rect -> nothing; bounds disjoint -> skip; pieces appended path by path in results_ order", "cfg": cfg},
+                 ok=not problems)
+    if problems:
+        chk.violation(rule, f.qual, "lines-shortcuts", "; ".join(problems), f.where, cfg=cfg)
+    return 1
